@@ -226,6 +226,8 @@ def directed_cases():
         c("single-line-no-newline", "one header field, no newline at all", "plain", "Subject: x", sections=["1"]),
         c("long-lines", "body lines of 998 and 5000 octets", "plain",
           "From: a@example.com\nSubject: long\n\n" + "y" * 998 + "\n" + "z" * 5000 + "\nend\n", sections=["1"]),
+        c("encoded-word-before-long-token", "an encoded word followed by an unbroken token of 80 characters", "plain",
+          "Subject: " + "x" * 71 + " =?utf-8?q?caf=C3=A9?= " + "y" * 80 + "\n\nhello\n", sections=["1"]),
         c("dot-lines-and-from", "lines starting with '.', 'From ' and '>From '", "plain",
           "From: a@example.com\nSubject: dots\n\n.\n..\nFrom here on\n>From there\n.\n", sections=["1"]),
     ]
@@ -392,6 +394,7 @@ async def observe(w, n, struct, rng, sections=None, nparts=None):
                       "text-not-the-rest" if f.startswith(h) else
                       "header-from-inside" if h in f else "header-not-the-start")
     obs["fields"] = fields_of(first[""]) if "" in first else []
+    obs["fieldsNoWS"] = [[k, v.replace(" ", "")] for k, v in obs["fields"]]
     obs["leaves"] = leaves_of(first[""]) if "" in first else []
     return obs
 
@@ -438,6 +441,7 @@ async def run_cases(w, cases, seed):
         sent = item(data)
         sent_fields = fields_of(data)
         base = {"tag": c["tag"], "struct": struct, "sent": sent, "sentFields": sent_fields,
+                "sentFieldsNoWS": [[k, v.replace(" ", "")] for k, v in sent_fields],
                 "sentLeaves": leaves_of(data), "opaque": bool(c.get("opaque", struct == "plain")),
                 "wellformed": bool(c.get("wellformed", True)), "label": c.get("label", ""),
                 "cls": c.get("cls", struct)}
